@@ -109,6 +109,7 @@ class Engine:
         self.tokens = []
         self.token_back = {}
         self.nested = 0
+        self.lazy_tokens = False      # per path: a harness opts in at the start of its run (workers serve several harnesses)
         self.path_serial = getattr(self, "path_serial", 0) + 1
         self.memo = {}
         self.solver.reset()
